@@ -106,12 +106,46 @@ def run_pipelined(threads):
         s.cleanup()
 
 
+def run_saturated():
+    """every connection slot taken for longer than --timeout by a healthy worker: the long request is answered all the same"""
+    s = rp.Server("gthread", workers=1, threads=2, args=["--keep-alive", str(KA), "--timeout", "2", "--worker-connections", "2"], name="c13")
+    try:
+        s.start()
+        s.wait_booted(1)
+        res = {}
+
+        def long1():
+            try:
+                st, body, info = s.get("/sleep?t=5", timeout=15)
+                res["c1"] = st == 200 and info["complete"]
+            except OSError:
+                res["c1"] = False
+        t1 = threading.Thread(target=long1)
+        t1.start()
+        time.sleep(0.5)
+        c2 = s.connect(timeout=15)              # takes the last connection slot
+        c2.sendall(b"GET /pid HTTP/1.1\r\nHost: h\r\nConnection: close\r\n\r\n")
+        t1.join()
+        try:
+            st2, body2, info2 = rp.read_response(c2)
+            res["c2"] = st2 == 200
+        except OSError:
+            res["c2"] = False
+        c2.close()
+        ev = [{"e": "req", "c": 1, "nseg": 1, "nth": 1, "inflight": 0, "answered": bool(res.get("c1"))}]
+        return {"threads": 2, "ka_ms": KA * 1000, "slack_ms": SLACK, "ev": ev}, \
+            {"threads": 2, "busy": 0, "plan": "saturated", "res": res, "log": s.errlog()[-300:]}
+    finally:
+        s.cleanup()
+
+
 def real_side(ctx):
     from props.reload_real import _parallel
     plan = [(2, 1, [1, 2, 3]), (1, 0, [2, 1, 4]), (3, 2, [3, 3])] if ctx.quick else \
         [(t, b, p) for t in (1, 2, 4) for b in range(0, t) for p in ([1, 2, 3], [2, 1, 4], [3, 3], [1, 1, 8])]
-    plan = plan + [("pipelined", 2, None)] + ([] if ctx.quick else [("pipelined", 1, None)])
-    results = _parallel(plan, lambda a, i: run_pipelined(a[1]) if a[0] == "pipelined" else run_real(a[0], a[1], a[2]), par=7)
+    plan = plan + [("pipelined", 2, None), ("saturated", 2, None)] + ([] if ctx.quick else [("pipelined", 1, None)])
+    results = _parallel(plan, lambda a, i: run_pipelined(a[1]) if a[0] == "pipelined" else run_saturated() if a[0] == "saturated"
+                        else run_real(a[0], a[1], a[2]), par=8)
     traces = [r[0] for r in results]
     metas = [r[1] for r in results]
     verdicts, stats = tlc.validate_batch("GThreadRealTrace", "GThreadRealTrace.cfg", traces, name="GThreadRealTrace_C13")
@@ -124,6 +158,8 @@ def real_side(ctx):
         where = "nth=%s,nseg=%s" % (("1" if e.get("nth") == 1 else ">1"), ("1" if e.get("nseg") == 1 else ">1")) if e["e"] == "req" else "idle"
         if e["e"] == "req" and e.get("nseg") == 0:
             where = "pipelined"
+        if m.get("plan") == "saturated":
+            where = "saturated"
         ctx.violation("C13/%s/real/%s" % (v, where), "%s: %s event=%s" % (v, {k: m[k] for k in m if k != "log"}, e),
                       {"trace": t, "meta": m})
     ctx.sample({"real": metas[0]["plan"], "events": traces[0]["ev"]})
